@@ -288,8 +288,12 @@ def peer_run(role, script, peer_kw=None, client=None, horizon=15.0,
         return body
 
     def on_startup(llc):
-        out['servers'] = [nfc.snep.SnepServer(llc),
-                          nfc.handover.HandoverServer(llc)]
+        class GetServer(nfc.snep.SnepServer):
+            # every Get is answered with a message that needs three
+            # fragments at the default connection MIU of 128
+            def process_get_request(self, records):
+                return [ndef.Record('unknown', '', bytes(300))]
+        out['servers'] = [GetServer(llc), nfc.handover.HandoverServer(llc)]
         ldl = nfc.llcp.Socket(llc, nfc.llcp.LOGICAL_DATA_LINK)
         ldl.bind(32)
         dlc = nfc.llcp.Socket(llc, nfc.llcp.DATA_LINK_CONNECTION)
